@@ -31,7 +31,7 @@ func genWorld(r *core.Rand, kinds []string, maxChunks, maxSize int) WorldSpec {
 	w := WorldSpec{Kind: kinds[r.Intn(len(kinds))]}
 	w.MemTable = uint64([]int{512, 2048, 1 << 16}[r.Intn(3)])
 	w.MaxTab = []int{2, 3, 5, 256}[r.Intn(4)]
-	w.Cfg = JCfg{BuffSize: 64 << 10, SyncThreshold: 64 << 20, MaxNovel: []int{2, 4, 16384}[r.Intn(3)], MemTable: w.MemTable}
+	w.Cfg = JCfg{BuffSize: 64 << 10, SyncThreshold: 64 << 20, MaxNovel: []int{2, 4, 16384}[r.Intn(3)], MemTable: w.MemTable, MmapArchives: r.Chance(1, 2)}
 	n := r.Range(3, maxChunks)
 	nb := r.Range(1, 4)
 	per := (n + nb - 1) / nb
@@ -72,7 +72,7 @@ type World struct {
 func openWorld(ctx context.Context, kind, dir string, memTable uint64, maxTables int) (*nbs.NomsBlockStore, error) {
 	switch kind {
 	case "journal", "journal-gc", "journal-archive":
-		st, err := nbs.NewLocalJournalingStore(ctx, constants.FormatDefaultString, dir, nbs.NewUnlimitedMemQuotaProvider(), false, func(error) {})
+		st, err := nbs.NewLocalJournalingStore(ctx, constants.FormatDefaultString, dir, nbs.NewUnlimitedMemQuotaProvider(), nbs.DsimMmapArchiveIndexes, func(error) {})
 		if err != nil {
 			return nil, err
 		}
